@@ -22,7 +22,8 @@ CONSTANTS Pats,        \* pattern texts (strings)
           RouteMethods,\* methods routes are registered for, subset of Methods
           MaxRoutes,
           RwTargets, OvTargets,    \* rewrite / override targets used by middleware behaviours
-          EpBehs, UseBehs
+          EpBehs, UseBehs,
+          MultiKinds               \* registrations made for several methods at once, e.g. {"GET+POST"} (app.Add([GET, POST], ...))
 
 VARIABLES table,      \* sequence of registrations [kind, pat, beh]
           req,        \* <<method, path>> as sent
@@ -33,12 +34,13 @@ VARIABLES table,      \* sequence of registrations [kind, pat, beh]
           matchedEP, ran, status, allow
 vars == <<table, req, phase, curM, curP, gpos, rest, matchedEP, ran, status, allow>>
 
-Kinds == {"use"} \cup RouteMethods
+Kinds == {"use"} \cup RouteMethods \cup MultiKinds
+MethodsOf(k) == IF k = "GET+POST" THEN {"GET", "POST"} ELSE {k}
 Beh(k) == IF k = "use" THEN UseBehs ELSE EpBehs
 RouteRec == UNION { [kind : {k}, pat : Pats, beh : Beh(k)] : k \in Kinds }
 
 K(r) == IF r.kind = "use" THEN "use" ELSE "ep"
-InStack(r, m) == r.kind = "use" \/ r.kind = m
+InStack(r, m) == r.kind = "use" \/ m \in MethodsOf(r.kind)
 Matches(r, p) == <<r.pat, K(r), p>> \in MatchSet
 
 \* --- duplicate merging: a registration made right after one with the same path and kind (no other registration call in
@@ -113,7 +115,7 @@ Spec == Init /\ [][Next]_vars
 ---------------------------------------------------------------------------
 \* Design-level properties of the abstract dispatch (checked on every generated state)
 RanInRegistrationOrder == \A i \in 1..(Len(ran) - 1) : ran[i] < ran[i + 1]
-RanOnlyApplicable == \A i \in 1..Len(ran) : table[ran[i]].kind = "use" \/ table[ran[i]].kind \in RouteMethods
+RanOnlyApplicable == \A i \in 1..Len(ran) : table[ran[i]].kind = "use" \/ MethodsOf(table[ran[i]].kind) \subseteq RouteMethods
 ReplyOnlyWhenDone == (status # 0) <=> (phase = "done")
 AllowNeverCurrent == curM \notin allow
 \* a handler is never run twice
